@@ -487,6 +487,9 @@ impl Runner {
                         let _ = std::fs::remove_file(p);
                     }
                     let _ = std::fs::remove_dir(&dir);
+                    if let Some(parent) = dir.parent() {
+                        let _ = std::fs::remove_dir(parent);
+                    }
                     r
                 } else {
                     catch(AssertUnwindSafe(|| tera.add_raw_templates(pairs)))
@@ -2188,4 +2191,5 @@ fn main() {
     ));
     report.rule = "a (prefixes, steps so far, this step) case whose last step is an add_raw_templates call that reaches finalize_templates (no item of the batch has a syntax error, so every item is inserted and the multi-pass finalize / commit-or-undo runs); distinct by the full history prefix including every template summary".into();
     report.write(&out_path());
+    let _ = std::fs::remove_dir_all(scratch_dir());
 }
